@@ -55,6 +55,17 @@ def tree_T6():
                   E(b"README", "file", content=b"readme"), E(b".cfg", "dir", 0o755), E(b".cfg/..x", "link", target=b".zz"), E(b".cfg/.y", "file", content=b"y")], {"root": 5, ".cfg": 2}
 
 
+def tree_T7():
+    # names that merely begin with '..' (Kubernetes volume style: ..data, ..2024_01_01) next to the real '.' and '..', multiply-linked
+    return "T7", [E(b"..2024_01_01", "file", content=b"payload"), E(b"..data", "link", target=b"..2024_01_01"), E(b"..chk", "file", content=b"chk"),
+                  E(b"config", "file", content=b"cfg")], {"root": 4}
+
+
+def tree_T8():
+    # names that sort before / between / right after '.' and '..' in byte order: '+x' < '-y' < '.' < '.-' < '..' < '...'
+    return "T8", [E(b"+x", "file", content=b"plus"), E(b"...", "link", target=b"+x"), E(b".-", "file", content=b"dotdash"), E(b"-y", "link", target=b".-")], {"root": 4}
+
+
 def option_sets(tier):
     S = [("default", [], None), ("-k", ["-k"], None), ("--no-hard-links", ["-H"], None)]
     if tier == "thorough":
@@ -89,7 +100,7 @@ def main():
     with build.Scratch("C11") as sd:
         tools = build.build_tools(build.variant("envwrap"), os.path.join(sd, "bin"), tools=["gensquashfs"])
         T.update(tools)
-        trees = [tree_T1(), tree_T4(), tree_T6(), tree_T5(), tree_T2()] + ([tree_T3()] if not cr.quick else [])
+        trees = [tree_T1(), tree_T4(), tree_T6(), tree_T7(), tree_T8(), tree_T5(), tree_T2()] + ([tree_T3()] if not cr.quick else [])
         if cr.replay:
             case = json.load(open(os.path.join(cr.replay, "case.json")))
             tr = {t[0]: t for t in trees + [tree_T3()]}[case["tree"]]
